@@ -35,8 +35,8 @@ pub(crate) fn named(attr: &StructAttr, ts_name: Expr, fields: &FieldsNamed) -> R
         )?;
     }
 
-    let fields = quote!(<[String]>::join(&[#(#formatted_fields),*], " "));
-    let flattened = quote!(<[String]>::join(&[#(#flattened_fields),*], " & "));
+    let fields = quote!(<[std::string::String]>::join(&[#(#formatted_fields),*], " "));
+    let flattened = quote!(<[std::string::String]>::join(&[#(#flattened_fields),*], " & "));
 
     let inline = match (formatted_fields.len(), flattened_fields.len()) {
         (0, 0) => quote!("{  }".to_owned()),
@@ -50,11 +50,11 @@ pub(crate) fn named(attr: &StructAttr, ts_name: Expr, fields: &FieldsNamed) -> R
                 .filter(|x| {
                     x.chars()
                         .try_fold(0usize, |depth, c| match c {
-                            '(' => Some(depth + 1),
+                            '(' => std::option::Option::Some(depth + 1),
                             ')' => depth.checked_sub(1),
-                            _ => Some(depth),
+                            _ => std::option::Option::Some(depth),
                         })
-                        == Some(0)
+                        == std::option::Option::Some(0)
                 });
             unwrapped.unwrap_or(&flattened).trim().to_owned()
         }},
